@@ -272,3 +272,28 @@ M("c11_key_flag_not_stored", ["C11"], "client does not persist the key-created f
 M("c11_upload_edb_without_config", ["C11"], "client uploads the index without checking that the config was uploaded",
   ("frontend/client/services/service.py", "        if not ClientServiceState.is_config_uploaded(self.get_current_service_state()):\n            reason = f\"The config of service {self.short_sid} has not been uploaded.\"\n            logger.error(reason)\n            raise ValueError(reason)\n        if not ClientServiceState.is_key_created(self.get_current_service_state()):\n            reason = f\"The key of service {self.short_sid} is not found.\"\n            logger.error(reason)\n            raise ValueError(reason)\n\n        self._load_sse_encrypted_database()",
    "        self._load_sse_encrypted_database()"))
+
+# ---------------------------------------------------------------- C12 / C13
+M("c12_no_wait_for_lock", ["C12"], "server serves a later connection without taking the per-service lock when it is free at arrival time only",
+  ("frontend/server/services/services_manager.py", "        async with sid_lock:\n", "        if True:\n"))
+M("c12_no_reload", ["C12"], "waiting connection keeps its stale snapshot (no reload when it becomes active)",
+  ("frontend/server/services/services_manager.py", "            service.reload_persisted_state()\n", "            pass\n"))
+M("c12_no_control_message", ["C12"], "waiting connection is not told to wait",
+  ("frontend/server/services/services_manager.py", "            service.send_message(MsgType.CONTROL, reason.encode('utf8'))\n", "            pass\n"))
+M("c12_lock_released_before_cleanup", ["C12"], "the per-service lock is released before the cleanup of the closed connection has run",
+  ("frontend/server/services/services_manager.py", "            finally:\n                await clean_task\n", "            finally:\n                pass\n"))
+M("c13_meta_in_place", ["C13"], "server writes service_meta in place again",
+  ("frontend/server/services/file_manager.py", "    _write_file_atomically(service_dir_path.joinpath(\"service_meta\"), pickle.dumps(meta))",
+   "    with open(service_dir_path.joinpath(\"service_meta\"), \"wb\") as f:\n        pickle.dump(meta, f)"))
+M("c13_meta_before_config", ["C13"], "server writes service_meta before config.json",
+  ("frontend/server/services/service.py", "        FileManager.write_service_config(self.sid, config)\n        self.config = config\n        self.service_meta[\"state\"] = SERVICE_STATE.CONFIG_UPLOADED_BUT_EDB_NOT_UPLOADED\n        FileManager.write_service_meta(self.sid, self.service_meta)",
+   "        self.config = config\n        self.service_meta[\"state\"] = SERVICE_STATE.CONFIG_UPLOADED_BUT_EDB_NOT_UPLOADED\n        FileManager.write_service_meta(self.sid, self.service_meta)\n        FileManager.write_service_config(self.sid, config)"))
+M("c13_client_key_flag_first", ["C13"], "client stores the key-created flag before writing the key",
+  ("frontend/client/services/service.py", "        FileManager.write_key(self.sid, sse_key.serialize())\n        self.set_current_service_state(ClientServiceState.set_key_created(self.get_current_service_state(), True))\n        self._store_service_meta()",
+   "        self.set_current_service_state(ClientServiceState.set_key_created(self.get_current_service_state(), True))\n        self._store_service_meta()\n        FileManager.write_key(self.sid, sse_key.serialize())"))
+M("c13_server_exists_check_loose", ["C13"], "server treats any existing folder as a configured service again",
+  ("frontend/server/services/file_manager.py", "    return _PROGRAM_PATH.joinpath(sid).exists() \\\n           and _PROGRAM_PATH.joinpath(sid).joinpath(\"config.json\").exists() \\\n           and _PROGRAM_PATH.joinpath(sid).joinpath(\"service_meta\").exists()",
+   "    return _PROGRAM_PATH.joinpath(sid).exists()"))
+M("c13_edb_flag_before_file", ["C13"], "server marks the service ready before the index file is written",
+  ("frontend/server/services/service.py", "        FileManager.write_encrypted_database(self.sid, edb_bytes)\n        self.service_meta[\"state\"] = SERVICE_STATE.ALL_READY\n        FileManager.write_service_meta(self.sid, self.service_meta)",
+   "        self.service_meta[\"state\"] = SERVICE_STATE.ALL_READY\n        FileManager.write_service_meta(self.sid, self.service_meta)\n        FileManager.write_encrypted_database(self.sid, edb_bytes)"))
